@@ -480,6 +480,50 @@ fn h4(out: &mut Vec<ModuleSpec>, _thorough: bool) {
             false,
         );
     }
+    // wide records (thresholds on the number of data or on the extent), and a later step adding
+    // several mandatory data of one type
+    for (n, s) in [(17usize, Simple), (20, Basic), (33, Simple)] {
+        let tys = [U32, Str, U8, U64, Bool, VecU32, U16, Char];
+        let mut h = Vec::new();
+        for i in 0..n {
+            let t = tys[i % tys.len()];
+            h.push(if t.is_copy() && i % 3 != 0 { addu(&f(i), t) } else { add(&f(i), t) });
+        }
+        h.push(close(s));
+        h.push(rm(&f(1)));
+        h.push(add("late", BoxStr));
+        h.push(close(s));
+        fragments(ModuleSpec::new(format!("h4/wide{}/{}", n, s.name()), h), out, false);
+    }
+    for s in [Simple, Basic] {
+        fragments(
+            ModuleSpec::new(
+                format!("h4/same_type_run/{}", s.name()),
+                vec![
+                    add("first", Str),
+                    add("middle", Str),
+                    add("last", Str),
+                    add("n0", U64),
+                    add("n1", U64),
+                    add("n2", U64),
+                    addu("flag", Bool),
+                    close(s),
+                    rm("middle"),
+                    add("x0", Str),
+                    add("x1", Str),
+                    add("x2", Str),
+                    add("x3", Str),
+                    addu("y", U32),
+                    add("m0", U64),
+                    add("m1", U64),
+                    add("m2", U64),
+                    close(s),
+                ],
+            ),
+            out,
+            false,
+        );
+    }
     // the repository's README definition
     fragments(
         ModuleSpec::new(
